@@ -48,6 +48,13 @@ def run_crc_family(fam, st):
         want = pinned.crc24q_table(data)
         got = calc_crc24q(data)
         ok = got == want
+        if ok and fam.get("crc2bytes") and crc2bytes(data) != want.to_bytes(3, "big"):
+            out = core.Outcome()
+            out.bad("crc2bytes-wrong", f"{label}: crc2bytes({data[:12].hex()}.. {len(data)} B) -> "
+                    f"{crc2bytes(data).hex()}, CRC-24Q is {want:06x}")
+            st.add({"kind": "crc", "data": data}, out)
+            st.evaluations -= 1
+            st.nontrivial -= 1
         if not ok or n % 4099 == 1:
             out = core.Outcome()
             if not ok:
@@ -114,6 +121,11 @@ def run_crc_family(fam, st):
             one(b"\x00" * (ln - 1) + b"\x01" if ln else b"", f"last bit {ln}")
             one(b"\x80" + b"\x00" * (ln - 1) if ln else b"", f"first bit {ln}")
             one(bytes((i * 37 + ln) & 0xFF for i in range(ln)), f"fp {ln}")
+            if ln >= 3:
+                # messages whose own remainder is zero (message || its CRC): the trailer of such a
+                # message is 000000, not its last three bytes
+                base = bytes((i * 53 + ln) & 0xFF for i in range(ln - 3))
+                one(base + pinned.crc24q_table(base).to_bytes(3, "big"), f"zero remainder {ln}")
     elif kind == "singlebit":
         ln = fam["len"]
         for bit in range(ln * 8):
@@ -251,6 +263,29 @@ def run_v0(st, tier):
                 out.bad("validate0-rejects", f"{it['name']}: trailer bit {bit}: {type(err).__name__}: {err}")
             out.obs = core.h64(bytes(d))
             st.add({"kind": "v0", "name": it["name"], "bit": bit}, out)
+        # history: a frame of the same length with DIFFERENT content but this frame's trailer
+        pl = bytearray(it["payload"])
+        if len(pl) >= 4:
+            pl[-1] ^= 0x01
+            pl[len(pl) // 2] ^= 0x10
+            other = pinned.frame(bytes(pl))
+            forged = other[:-3] + frame[-3:]
+            out = core.Outcome()
+            try:
+                want = R.public_attrs(RTCMReader.parse(other, validate=0))
+            except Exception:  # pylint: disable=broad-except
+                want = None
+            try:
+                RTCMReader.parse(frame, validate=1)
+                got = R.public_attrs(RTCMReader.parse(forged, validate=0))
+            except Exception:  # pylint: disable=broad-except
+                got = None
+            if got != want:
+                out.bad("validate0-crc-bytes-influence-result:history",
+                        f"{it['name']}: after parsing frame X, a different frame carrying X's trailer "
+                        f"decodes (validate=0) differently from the same payload with its own trailer")
+            out.obs = core.h64(forged)
+            st.add({"kind": "v0h", "name": it["name"]}, out)
 
 
 def judge(case):
@@ -292,9 +327,9 @@ def _work(fam):
 def plan(tier):
     fams = []
     for lo in range(0, 256, 16):
-        fams.append({"kind": "short", "lo": lo, "hi": lo + 16})
+        fams.append({"kind": "short", "lo": lo, "hi": lo + 16, "crc2bytes": True})
     for lo in range(0, 1030, 65):
-        fams.append({"kind": "perlen", "lo": lo, "hi": min(lo + 65, 1031)})
+        fams.append({"kind": "perlen", "lo": lo, "hi": min(lo + 65, 1031), "crc2bytes": True})
     last = [0x00] if tier == "quick" else [0x00, 0xFF, 0x01, 0x80, 0x55, 0xAA, 0xD3, 0x7F]
     for b0 in range(256):
         fams.append({"kind": "step", "b0": b0, "last": last, "len": 40})
